@@ -7,6 +7,9 @@ from . import acegen as G
 
 ADDR_P = ["any", "host", "wild:0.0.0.255", "wild:0.0.1.3", "wild:0.0.0.1", "prefix:24", "wild:128.0.0.1", "ones"]
 ADDR_G = ["groupm:0.0.0.255", "groupm:0.0.0.0+0.0.1.3", "groupm:0.0.0.0+0.0.0.0", "group"]
+# bottoms that expand to >= 3 networks against tops made of several networks (targeted single-field rows)
+MANY_TOPS = ["groupm:0.0.0.255+0.0.0.255", "prefix:24"]
+MANY_BOTS = ["wild:0.0.5.0", "groupm:0.0.0.0+0.0.0.0+0.0.0.0"]
 PORT_P = ["none", "eq1", "eq2", "range", "gt", "lt", "neq1"]
 PROTO_P = ["ip", "tcp", "udp", "icmp", "nsym"]      # nsym: a numeric protocol, symbolic over 0..255 (single-field rows)
 PROTO_X = ["ip", "tcp", "udp", "icmp"]
@@ -18,7 +21,7 @@ SKIPS = [[], ["addrgroup"], ["nc_wildcard"], ["addrgroup", "nc_wildcard"], ["nc_
 
 
 def dims(groups=True):
-    addr = ADDR_P + (ADDR_G if groups else [])
+    addr = ADDR_P + ((ADDR_G + [x for x in MANY_TOPS + MANY_BOTS if x not in ADDR_P + ADDR_G]) if groups else [])
     d = dict(platform=["ios", "nxos"])
     for side in ("t", "b"):
         d[side + "act"] = ["permit", "deny"]
@@ -88,14 +91,25 @@ def rows(t, seed, groups=True, candidates=30, bias_true=True):
     n = 0
     for field, proto in (("act", "ip"), ("proto", "ip"), ("sa", "ip"), ("da", "ip"), ("sp", "tcp"), ("dp", "udp"),
                          ("flags", "tcp"), ("log", "ip")):
-        for tv in ds["t" + field]:
-            for bv in ds["b" + field]:
+        base = (ADDR_P + (ADDR_G if groups else [])) if field in ("sa", "da") else None
+        for tv in (base or ds["t" + field]):
+            for bv in (base or ds["b" + field]):
                 n += 1
                 for platform in (("ios", "nxos") if field in ("sa", "da") and n % 2 else (("ios", "nxos")[n % 2],)):
                     row = _neutral_row(platform, proto)
                     row["t" + field], row["b" + field] = tv, bv
                     if valid(row):
                         out.append(row)
+    if groups:
+        for field in ("sa", "da"):
+            for tv in MANY_TOPS:
+                for bv in MANY_BOTS:
+                    n += 1
+                    if (field == "sa") != (n % 2 == 0):
+                        continue                      # alternate between the source and the destination field
+                    row = _neutral_row(("ios", "nxos")[(n // 2) % 2], "ip")
+                    row["t" + field], row["b" + field] = tv, bv
+                    out.append(row)
     cross = dict(ds)
     for side in ("t", "b"):
         cross[side + "sa"] = cross[side + "da"] = CROSS_ADDR + (CROSS_ADDR_G if groups else [])
